@@ -125,7 +125,7 @@ def parse_trunc(line):
     """`TRUNC kind seed hex | path:n:events ; ...` -> dict(kind, seed, hex, paths={path: (n, [(len, outcome)])})"""
     if not line.startswith("TRUNC "):
         return None
-    head, rest = line.split(" | ", 1)
+    head, content, rest = line.split(" | ", 2)
     w = head.split()
     paths = {}
     for seg in rest.split(" ;"):
@@ -141,7 +141,7 @@ def parse_trunc(line):
             if more:
                 evs.append((-1, "more:" + more.group(1)))
         paths[path] = (int(n), evs)
-    return dict(kind=w[1], seed=w[2], hex=w[3], paths=paths)
+    return dict(kind=w[1], seed=w[2], hex=w[3], content=content.strip(), paths=paths)
 
 
 def parse_corrupt(line):
@@ -150,9 +150,10 @@ def parse_corrupt(line):
         return None
     parts = line.split(" | ")
     w = parts[0].split()
-    npre = int(parts[1].split("=")[1])
+    content = parts[1].strip()
+    npre = int(parts[2].split("=")[1])
     paths = {}
-    for seg in parts[2].split(" ;"):
+    for seg in parts[3].split(" ;"):
         seg = seg.strip()
         if not seg:
             continue
@@ -162,7 +163,7 @@ def parse_corrupt(line):
             for m in re.finditer(r"(\d+)/(\d+)=(\S+)", ev):
                 evs.append((int(m.group(1)), int(m.group(2)), m.group(3)))
         paths[path] = (verd, evs)
-    return dict(kind=w[1], seed=w[2], hex=w[3], npre=npre, paths=paths)
+    return dict(kind=w[1], seed=w[2], hex=w[3], content=content, npre=npre, paths=paths)
 
 
 def corrupt_cases(img, npre):
@@ -195,14 +196,31 @@ def outcome_class(oc):
     return oc.split(":")[0]
 
 
-def key_family(kind, in_preamble):
+def key_family(kind, in_preamble, img=None):
+    """family part of a finding key: the tuple reader is one template (the serde only matters in the entries area);
+    a theta image is named by the serial version it actually has (`serialize_compressed` falls back to version 3)"""
     if kind.startswith("tuple_") and in_preamble:
         return "tuple"
+    if kind.startswith("theta") and img is not None and len(img) > 1:
+        return "theta_v%d" % img[1]
     return kind
 
 
-def region(length):
-    return "long%d" % (length // 8) if length < 24 else "entries"
+def preamble_bytes(kind, img):
+    """same rule as the harness: bytes of the image that are preamble (fixed fields and counts)"""
+    if len(img) < 8:
+        return len(img)
+    if kind == "aod":
+        return min(len(img), 24 if img[4] & 8 else 16)
+    pre = img[0]
+    if kind.startswith("theta") and img[1] == 4:
+        return min(len(img), 8 * pre + img[4])
+    return min(len(img), 8 * max(pre, 1))
+
+
+def region(length, npre):
+    """where a truncation happens: the 4-byte word of the preamble, or the entries area"""
+    return "off%d" % (length // 4 * 4) if length < npre else "entries"
 
 
 # ------------------------------------------------------------------ Parts
